@@ -305,3 +305,76 @@ Definition stack2 (ts : list tq) : option tq :=
     end
   end.
 Definition stack_critic (image : bool) (ts : list tq) : option tq := if image then stack2 ts else cat1 ts.
+
+(* ================= deepening round: rank-0 Box feature axis, generic Dict/Tuple, network input, N-d MultiBinary ========= *)
+(* rank-0 Box, repaired: the scalar gets an explicit feature axis (unsqueeze(-1)) and is batched as a (1,) space,
+   so that a batch is (B, 1) = batch :: what the encoder (spaces.flatdim = 1 input feature) expects.
+   [r0 = false] is the behaviour before the repair: (B,). *)
+Definition unsqueeze_last (t : tq) : tq := T (shp t ++ [1]) (dat t).
+Definition prep_leaf_r (r0 mdf nz : bool) (l : leaf) (t : tq) : option tq :=
+  match l with
+  | Box [] _ _ _ => if r0 then add_batch_dim (unsqueeze_last t) [1] else prep_leaf mdf nz l t
+  | _ => prep_leaf mdf nz l t
+  end.
+(* the encoder's input: Box s -> s (rank >= 1) or one feature (rank 0); one-hot widths; n bits *)
+Definition encoder_input_shape (l : leaf) : list nat :=
+  match l with Box [] _ _ _ => [1] | _ => net_input_shape l end.
+
+(* Dict / Tuple handling over any leaf preparation *)
+Section Generic.
+Variable pl : leaf -> tq -> option tq.
+Fixpoint prep_dict_g (fields : list (nat * leaf)) (items : list (nat * tq)) : option (list (nat * tq)) :=
+  match items with
+  | [] => Some []
+  | (k, t) :: items' =>
+    match lookup k fields with
+    | None => None
+    | Some l =>
+      match pl l t, prep_dict_g fields items' with
+      | Some p, Some ps => Some ((k, p) :: ps)
+      | _, _ => None
+      end
+    end
+  end.
+Fixpoint prep_tuple_g (members : list leaf) (items : list tq) : option (list tq) :=
+  match items, members with
+  | t :: items', l :: members' =>
+    match pl l t, prep_tuple_g members' items' with
+    | Some p, Some ps => Some (p :: ps)
+    | _, _ => None
+    end
+  | _, _ => Some []
+  end.
+Definition prep_g (sp : space) (o : obs) : option pobs :=
+  match sp, o with
+  | Leaf l, OLeaf t => option_map PLeaf (pl l t)
+  | DictS fields, ODict items => option_map PDict (prep_dict_g fields items)
+  | TupleS members, OTuple items => option_map PTuple (prep_tuple_g members items)
+  | _, _ => None
+  end.
+End Generic.
+Definition prep_r (r0 mdf nz : bool) : space -> obs -> option pobs := prep_g (prep_leaf_r r0 mdf nz).
+
+(* what a network built for leaf space l does with a prepared tensor: it needs batch :: encoder input shape and then
+   works row by row; a rank-1 tensor of exactly the encoder's (rank-1) input width is read as ONE unbatched row
+   (torch Linear semantics); anything else is a shape error *)
+Definition net_rows (l : leaf) (p : tq) : option (list (list Q)) :=
+  let e := encoder_input_shape l in
+  match shp p with
+  | b :: rest => if list_eq_dec Nat.eq_dec rest e then Some (rows p)
+                 else if (length e =? 1) && (match rest with [] => b =? prod e | _ => false end) then Some [dat p]
+                 else None
+  | [] => None
+  end.
+(* get_action of a single-agent algorithm with a row-wise network f: one report per row *)
+Definition get_action_model {O} (r0 mdf nz : bool) (l : leaf) (f : list Q -> O) (t : tq) : option (list O) :=
+  match prep_leaf_r r0 mdf nz l t with
+  | Some p => option_map (map f) (net_rows l p)
+  | None => None
+  end.
+
+(* MultiBinary(n) with n a sequence (shape = dims, several dimensions): the code batches it with space_shape = (n,),
+   i.e. as if the space had rank 1, and the (step, env) branch fails on view(-1, (d1, d2, ..)) *)
+Definition prep_mb_nd (dims : list nat) (t : tq) : option tq :=
+  let r := rank t in
+  if r =? 1 then Some (unsqueeze0 t) else if r =? 3 then None else if r =? 2 then Some t else None.
